@@ -18,7 +18,7 @@ SINGLE = ["ZADD", "ZCARD", "ZSCORE", "ZMSCORE", "ZREM", "ZINCRBY", "ZCOUNT", "ZR
           "ZRANGE", "ZRANGESTORE", "ZLEXCOUNT", "ZREMRANGEBYSCORE", "ZREMRANGEBYLEX", "ZREMRANGEBYRANK"]
 MULTI = ["ZMPOP", "ZDIFF", "ZDIFFSTORE", "ZINTER", "ZINTERSTORE", "ZUNION", "ZUNIONSTORE"]
 MODELLED = SINGLE + MULTI
-REF_ONLY = ["ZRANDMEMBER"]      # randomised: judged by the reference alone
+REF_ONLY = ["ZRANDMEMBER"]      # randomised: model comparison up to the draw (common.RANDOM_WORDS), drawn members judged by the reference
 
 def zs(d):
     return vzset({k: PS[v] for k, v in d.items()})
